@@ -43,6 +43,10 @@ func (h *FakeHQ) RoundTrip(req *http.Request) (*http.Response, error) {
 	}
 	h.Calls = append(h.Calls, call)
 	h.mu.Unlock()
+	// the service promises no order for its answer: list the not-seen URLs in reverse
+	for i, j := 0, len(out)-1; i < j; i, j = i+1, j-1 {
+		out[i], out[j] = out[j], out[i]
+	}
 	if len(out) == 0 {
 		return &http.Response{StatusCode: 204, Status: "204 No Content", Body: io.NopCloser(bytes.NewReader(nil)), Header: http.Header{}, Request: req}, nil
 	}
